@@ -35,7 +35,7 @@ use std::sync::atomic::{AtomicBool, AtomicI64, AtomicU64, AtomicUsize, Ordering}
 use std::sync::{Arc, Barrier, Mutex, mpsc};
 use std::time::{Duration, Instant};
 
-pub const CLASSES: [&str; 4] = ["swap-rust", "swap-script", "refcount-storm", "into-func"];
+pub const CLASSES: [&str; 5] = ["swap-rust", "swap-script", "refcount-storm", "into-func", "frame-slots"];
 
 #[derive(Clone, Debug)]
 pub struct Case {
@@ -52,13 +52,13 @@ impl Case {
     }
     /// attempt k multiplies the rounds by 4^k (capped at 16: beyond that more
     /// independent attempts are worth more than longer ones)
-    fn mult(&self) -> u64 {
+    pub fn mult(&self) -> u64 {
         4u64.pow(self.attempt.min(2))
     }
-    fn thorough(&self) -> bool {
+    pub fn thorough(&self) -> bool {
         self.tier == "thorough"
     }
-    fn prng(&self, salt: u64) -> Prng {
+    pub fn prng(&self, salt: u64) -> Prng {
         Prng::for_case(self.seed ^ (0xC12_5A4E_0000 + salt), self.index)
     }
     fn thread_prng(&self, tid: usize) -> Prng {
@@ -67,19 +67,19 @@ impl Case {
 }
 
 /// Collects at most five concrete observations of one kind.
-struct Bad(Mutex<Vec<Value>>);
+pub struct Bad(Mutex<Vec<Value>>);
 
 impl Bad {
-    fn new() -> Self {
+    pub fn new() -> Self {
         Bad(Mutex::new(vec![]))
     }
-    fn push(&self, v: Value) {
+    pub fn push(&self, v: Value) {
         let mut b = self.0.lock().unwrap();
         if b.len() < 5 {
             b.push(v);
         }
     }
-    fn take(self) -> Vec<Value> {
+    pub fn take(self) -> Vec<Value> {
         self.0.into_inner().unwrap()
     }
 }
@@ -164,7 +164,7 @@ fn u64_snapshot_defect(v: &[u64], sorted_ids: &[u64]) -> Option<&'static str> {
 
 /// The concrete parameters go to stdout before anything runs: when the
 /// process dies the parent still reports them.
-fn announce(params: &Value) {
+pub fn announce(params: &Value) {
     println!("PARAMS {params}");
     let _ = std::io::stdout().flush();
 }
@@ -1281,6 +1281,7 @@ pub fn worker_main(a: &[String]) {
         "swap-script" => swap_script(&c, &mut rep),
         "refcount-storm" => refcount_storm(&c, &mut rep),
         "into-func" => into_func(&c, &mut rep),
+        "frame-slots" => super::frames::frame_slots(&c, &mut rep),
         other => rep.mismatch("unknown share class", json!({"class": other})),
     }
     rep.emit();
@@ -1320,6 +1321,7 @@ pub fn run_case(c: &Case, rep: &mut Report, keep_sample: bool) -> usize {
             match c.class.as_str() {
                 "swap-rust" => "a process in which threads swap, read and push elements of Lists shared through the safe Rust API died or hung",
                 "swap-script" => "a process in which threads call one compiled function through a shared handle on clones of one List died or hung",
+                "frame-slots" => "a process in which threads call functions with by-reference locals, temporaries and return slots of all sizes through shared and cloned handles died or hung",
                 "refcount-storm" => "a process in which threads clone and drop a registered item, the runtime and a function handle while others compile against the shared runtime and call died or hung",
                 _ => "a process calling the closure returned by TypedFunc::into_func while / after another thread dropped the package, the runtime and the other handles died or hung",
             },
@@ -1332,10 +1334,11 @@ pub fn run_case(c: &Case, rep: &mut Report, keep_sample: bool) -> usize {
 
 /// The indices of one pass: every variant of every class.
 fn schedule(tier: &str, pass: u64) -> Vec<(&'static str, u64)> {
-    let per: [(&'static str, u64); 4] = if tier == "thorough" {
-        [("swap-rust", 8), ("swap-script", 8), ("refcount-storm", 12), ("into-func", 8)]
+    // frame-slots first: its class representatives (slot sizes around the powers of two, every role) are deterministic
+    let per: [(&'static str, u64); 5] = if tier == "thorough" {
+        [("frame-slots", 24), ("swap-rust", 8), ("swap-script", 8), ("refcount-storm", 12), ("into-func", 8)]
     } else {
-        [("swap-rust", 3), ("swap-script", 4), ("refcount-storm", 6), ("into-func", 4)]
+        [("frame-slots", 8), ("swap-rust", 3), ("swap-script", 4), ("refcount-storm", 6), ("into-func", 4)]
     };
     let mut v = vec![];
     for (class, n) in per {
